@@ -115,7 +115,7 @@ fn gen_item(rng: &mut Rng, k: u64) -> Item {
             Item::HeaderKV { key, value }
         }
         3 => {
-            let mut name = rng.pick(&["Main.kt", "", "a b.java", "R8$$SyntheticClass", "x:y", "Ünï.kt"]).to_string();
+            let mut name = rng.pick(&["Main.kt", "", "a b.java", "R8$$SyntheticClass", "x:y", "Ünï.kt", "src/main/kotlin/com/example/Foo.kt", "C:\\src\\Foo.java", "dir/", "./x.kt", "a/b", "..", "Foo.kt.orig"]).to_string();
             if rng.chance(1, 4) {
                 name.push(pgvcore::rng::unicode_letter(rng));
             }
